@@ -418,6 +418,9 @@ static void addStatefulFamily(const std::string & fam, bool disp, int minTier) {
 		u.minTier = minTier;
 		auto pick = [=](int tier) {
 			std::vector<Config> all = gen(tier, disp), mine;
+			// the dispatcher's full thorough set is ~250 M states (measured); keep every third configuration of it - a fixed
+			// subset of configurations, each still explored in full (the quick tier's collision-rich subset is generated separately)
+			if(tier >= 1 && disp) { std::vector<Config> third; for(size_t i = 0; i < all.size(); i += 3) third.push_back(all[i]); all.swap(third); }
 			for(size_t i = 0; i < all.size(); ++i) if((int)(i % NSHARDS) == shard) mine.push_back(all[i]);
 			return mine;
 		};
